@@ -238,6 +238,11 @@ def rule_window_table(rep):
 def rule_fft(rep):
     facts = rep.ctx.facts
     R = "R-C02-fft"
+    import C14 as _c14
+    _cfn, _placed = _c14.filter_placement(rep.ctx.facts)
+    rep.ob(R, "FftResampler::new/filter-placement", _placed,
+           "the anti-aliasing filter is make_sincs(fft_size_in, 1, ..)[0] copied tap-for-tap into the first fft_size_in elements of the block that is transformed "
+           "(loop over <block>.iter_mut().enumerate().take(fft_size_in), element n := tap n scaled)", loc(_cfn))
     cfn = facts.need_method("FftResampler", "new")
     cut = None
     for s in cfn["body"]["stmts"]:
